@@ -6,13 +6,6 @@
 # The symbol is instantiated inside std, so it only depends on the toolchain.
 _IOERR_DROP = "_RINvNtCs8xvirJzNMvV_4core3ptr9drop_glueNtNtNtB4_2io5error5ErrorECs3GJ6w2eqr8A_3std"
 
-# Formatting (`format!` of the name parts is the subject of the C11 naming harnesses and is never stubbed): the
-# `dyn fmt::Write` behind a `Formatter` is over-approximated by Kani to every `Write` implementor, among them
-# `PadAdapter` (pretty `{:#?}` output), whose `write_str` calls a `dyn Write` again. The real sink is a `String`,
-# so the recursion is infeasible; it is capped (unwinding assertions stay on). core symbols: toolchain only.
-_PAD_WRITE = "_RNvXs0_NtNtCs8xvirJzNMvV_4core3fmt8buildersNtB5_10PadAdapterNtB7_5Write9write_str"
-_FMT_WRITE = "_RNvNtCs8xvirJzNMvV_4core3fmt5write"
-
 GROUP = {
     # emit_file (default-features = false) + injected `verif` module (stubs/file.toml)
     "stub_sets": ["file"],
@@ -21,7 +14,6 @@ GROUP = {
     "modules": ["hfs", "c10_write", "c10_batch", "c11_retention", "c11_member", "c11_name"],
     # only harnesses whose goto program contains the symbol (CBMC rejects an unknown loop identifier)
     "cbmc_args": [
-        (r"_(write|open|retention)_", ["--unwindset", _IOERR_DROP + ":1"]),
-        (r"_name_", ["--unwindset", _PAD_WRITE + ":1," + _FMT_WRITE + ":1"]),
+        (r"_(write|open|retention|period)_", ["--unwindset", _IOERR_DROP + ":1"]),
     ],
 }
